@@ -73,7 +73,7 @@ pub trait Scenario: Sync + Send + 'static {
     fn assumptions(&self) -> Vec<String>;
     /// per-run wall-clock watchdog
     fn watchdog_secs(&self) -> u64 {
-        120
+        300
     }
 }
 
